@@ -366,7 +366,11 @@ def dump_cfg(r, cfg, d, name, force=None):
     """the configuration as an argument string: inline JSON, path to JSON, path to YAML"""
     how = force or r.choice(["inline", "json", "yaml"])
     if how == "inline":
-        return json.dumps(cfg), how
+        text = json.dumps(cfg)
+        if r.random() < 0.35:
+            # a long inline document (no path component may be that long: open() fails with ENAMETOOLONG, not ENOENT)
+            text = json.dumps(cfg, indent=6) + " " * 300
+        return text, how
     # every other configuration file goes to ONE directory shared by all cases of the run: the same path is then
     # rewritten with other contents between invocations of the tools in this process (a tuning loop does that), and
     # what a tool stores must follow the file's current contents
@@ -1623,6 +1627,62 @@ def check_kaldi_entry(ctx, I, ncases):
             ctx.cov["traces_validated_against_impl"] += 1
 
 
+def check_seed_across_processes(ctx, I):
+    """'with a fixed --seed two runs produce identical output' for runs that are separate interpreter processes with
+    their own string-hash secret (PYTHONHASHSEED unset is Python's default), for both tools, with dither."""
+    import subprocess
+
+    np, torch = I.np, I.torch
+    d = os.path.join(RUN, "seed-proc")
+    os.makedirs(d, exist_ok=True)
+    rs = np.random.RandomState(ctx.seed + 91)
+    ids = ["utt1", "utt12", "spk-a_b", "z"]
+    lines, scp = [], []
+    for k, u in enumerate(ids):
+        x = (rs.randn(400 + 37 * k) * 3000).astype(np.int16)
+        p = os.path.join(d, "%d.npy" % k)
+        np.save(p, x)
+        lines.append("%s %s" % (u, p))
+        import wave
+        wp = os.path.join(d, "%d.wav" % k)
+        with wave.open(wp, "wb") as wf:
+            wf.setnchannels(1)
+            wf.setsampwidth(2)
+            wf.setframerate(8000)
+            wf.writeframes(x.tobytes())
+        scp.append("%s %s" % (u, wp))
+    with open(os.path.join(d, "map"), "w") as f:
+        f.write("\n".join(lines) + "\n")
+    with open(os.path.join(d, "wav.scp"), "w") as f:
+        f.write("\n".join(scp) + "\n")
+    comp = json.dumps({"name": "stft", "bank": {"name": "fbank", "num_filts": 4, "sampling_rate": 8000}, "frame_length_ms": 10, "frame_shift_ms": 5})
+    outs = {}
+    for salt in ("101", "202"):
+        env = dict(os.environ)
+        env.update(C.impl_env())
+        env["PYTHONHASHSEED"] = salt
+        od = os.path.join(d, "out_" + salt)
+        code = ("import sys; from pydrobert.speech import command_line as cl; "
+                "cl.signals_to_torch_feat_dir([%r, %r, %r, '--preprocess', '[\"dither\"]', '--seed', '7']); "
+                "cl.compute_feats_from_kaldi_tables(['scp:%s', 'ark:%s', %r, '--preprocess', '[\"dither\"]', '--seed', '7'])"
+                % (os.path.join(d, "map"), comp, od, os.path.join(d, "wav.scp"), os.path.join(d, "feats_%s.ark" % salt), comp))
+        p = subprocess.run([C.PY, "-c", code], env=env, stdout=subprocess.PIPE, stderr=subprocess.STDOUT, text=True, timeout=300)
+        if p.returncode:
+            ctx.fail("a tool failed in a fresh interpreter (PYTHONHASHSEED=%s)" % salt, dict(output=p.stdout[-800:]), kind="impl")
+            return
+        feats = {}
+        for u in ids:
+            feats["torch:" + u] = torch.load(os.path.join(od, u + ".pt")).numpy().tobytes()
+        feats["kaldi"] = open(os.path.join(d, "feats_%s.ark" % salt), "rb").read()
+        outs[salt] = feats
+    ctx.count("seed-across-processes")
+    ctx.case(dict(kind="seed-across-processes", ids=ids), nontrivial=True)
+    diff = sorted(k for k in outs["101"] if outs["101"][k] != outs["202"][k])
+    if diff:
+        ctx.fail("with the same --seed two runs in separate interpreter processes (different string-hash secrets) store different output",
+                 dict(differing=diff, ids=ids, seed=7, preprocess=["dither"], PYTHONHASHSEED=["101", "202"]), kind="impl")
+
+
 def check_torch_entry(ctx, I, ncases):
     """the whole entry point, argument handling included (torch_main of coq/C09/Tools.v)"""
     np, torch = I.np, I.torch
@@ -1880,6 +1940,7 @@ def run(ctx):
     ctx.log("signals-to-torch-feat-dir: loop cases done")
     check_kaldi_entry(ctx, I, ctx.scale(45, 450))
     check_torch_entry(ctx, I, ctx.scale(45, 450))
+    check_seed_across_processes(ctx, I)
     ctx.log("entry-point cases done")
     if pr is not None and not pr["ok"] and not [f for f in ctx.failures if not f["no_input"]]:
         ctx.log("search found no failing input on the implementation")
